@@ -870,6 +870,22 @@ class SimPool:
             if widx < len(self.workers):
                 self.workers[widx].kill_at_seam = at
 
+    def _replace_worker(self, i):
+        k = self.k
+        cur_p = k.current
+        if self.shares_state:
+            w = k.spawn(self._make_worker(i), f't{i}r', 'worker', self.owner.priv, start_delay=k.delay(cur_p, 'fork'), image=self.owner.image)
+        elif self.start_method == 'fork':
+            # multiprocessing.Pool with maxtasksperchild under fork: the replacement is forked from the parent *now*
+            w = k.spawn(self._make_worker(i), f'w{i}r', 'worker', self._child_priv(k.snapshot_private(self.owner)),
+                        start_delay=k.delay(cur_p, 'fork'))
+        else:
+            w = k.spawn(self._make_worker(i), f'w{i}r', 'worker', self._child_priv(self.owner.priv.fork()),
+                        start_delay=k.delay(cur_p, 'fork'))
+        self.workers.append(w)
+        k.record('respawn', f'worker slot {i}')
+        k.probes['worker_respawned'] += 1
+
     def _make_worker(self, i):
         pool = self
 
@@ -918,6 +934,9 @@ class SimPool:
                 p.task = None
                 ntasks += 1
                 if pool.max_tasks_per_child is not None and ntasks >= pool.max_tasks_per_child:
+                    # the worker retires; CPython starts a replacement as long as the pool is not shut down and idle
+                    if (pool.queue or not pool.shutdown_flag) and not pool.broken:
+                        pool._replace_worker(i)
                     break
             k.proc_exit(p, 'os._exit')
         return worker_main
